@@ -146,6 +146,9 @@ def main():
         ids = sys.argv[2:] or sorted(d for d in os.listdir(SEEDED) if os.path.isdir(os.path.join(SEEDED, d)) and d != "benign")
         props = registered_props()
         results = {}
+        if merge and os.path.exists(os.path.join(SEEDED, "RESULTS.json")):
+            with open(os.path.join(SEEDED, "RESULTS.json")) as fh:
+                results = json.load(fh)
         def props_for(sid):
             own = sid.split("-")[0].replace("R2", "")
             # the two slowest checks (all-mode output evaluation) are run only for the properties they belong to
